@@ -231,7 +231,8 @@ static void ltv_step_h2(request_st * const r) {
           case CON_STATE_WRITE:
             if (r->handler_module && !r->resp_body_finished) {
                 const plugin * const p = r->handler_module;
-                if (p->handle_subrequest(r, p->data) > HANDLER_WAIT_FOR_EVENT) {
+                if (p->handle_subrequest(r, p->data) > HANDLER_WAIT_FOR_EVENT
+                    || r->state == CON_STATE_ERROR) { /*(handler flagged incomplete response)*/
                     r->state = CON_STATE_ERROR;
                     continue;
                 }
